@@ -202,6 +202,24 @@ func addFiltersCase(c *Corr, rep *Report, src string, pageURL *nurl.URL, skipUnl
 		c.premiseFailures = append(c.premiseFailures, "the first three filters changed the number of blocks")
 		return
 	}
+	// premises of the FltProps theorems on the real initial blocks: every Text element is in at
+	// most one block, and a block's word count is the sum over its Text elements
+	seenMember := map[int]bool{}
+	for _, b := range init {
+		sum := 0
+		for _, m := range b.Members {
+			if seenMember[m] {
+				c.premiseFailures = append(c.premiseFailures, fmt.Sprintf("Text element %d is in two initial blocks", m))
+			}
+			seenMember[m] = true
+			if m < len(t.NumWords) {
+				sum += t.NumWords[m]
+			}
+		}
+		if sum != b.NumWords {
+			c.premiseFailures = append(c.premiseFailures, fmt.Sprintf("initial block word count %d is not the sum %d over its Text elements", b.NumWords, sum))
+		}
+	}
 	var sb strings.Builder
 	fmt.Fprintf(&sb, "%d", len(init))
 	for _, b := range init {
